@@ -21,11 +21,15 @@ type POp struct {
 	Key  string
 	Ver  string // cas: v0 | stale | own | never
 	Keys []string
+	Same bool // cas/put: write the value the pre-loaded record already holds (a write that changes nothing but the version)
 }
 
 func (o POp) String() string {
 	switch o.Kind {
 	case "cas":
+		if o.Same {
+			return "cas(" + o.Key + "," + o.Ver + ",same value)"
+		}
 		return "cas(" + o.Key + "," + o.Ver + ")"
 	case "putmany", "getmany":
 		return o.Kind + "(" + strings.Join(o.Keys, ",") + ")"
@@ -42,6 +46,8 @@ var alphabet = []POp{
 var extra = []POp{
 	{Kind: "putmany", Keys: []string{"a", "a"}}, {Kind: "cas", Key: "a", Ver: "own"}, {Kind: "create", Key: "b"}, {Kind: "delete", Key: "b"},
 	// a slash-prefixed key: every operation must map it to the same stored key
+	// a compare-and-set that stores what is already there: still a write, with a fresh version and a single winner
+	{Kind: "cas", Key: "a", Ver: "v0", Same: true},
 	{Kind: "put", Key: "/s"}, {Kind: "getmany", Keys: []string{"/s", "a"}}, {Kind: "get", Key: "/s"},
 }
 
@@ -121,6 +127,9 @@ func job(sc scen, cfg vsched.Config) sdrv.Job {
 				own := map[string]string{}
 				for oi, o := range prog {
 					val := fmt.Sprintf("t%d.%d", t, oi)
+					if o.Same {
+						val = "init"
+					}
 					switch o.Kind {
 					case "create":
 						i := h.Begin(kvh.HOp{Thread: t, Kind: "create", Key: o.Key, Val: val})
